@@ -765,7 +765,7 @@ def c08_8(ck, prog):
                 'tests the result and gives the connection up on failure; only the server hands its configured '
                 'list down', 'DOM',
                 breaks='under memory pressure a server restricted to EXTERNAL accepts DBUS_COOKIE_SHA1 / ANONYMOUS',
-                floor=3)
+                floor=2)
     SETTERS = {'_dbus_transport_set_auth_mechanisms', '_dbus_auth_set_mechanisms'}
     n = 0
     for f in lib.prod_funcs(prog):
@@ -810,7 +810,7 @@ def c08_8(ck, prog):
                 r.violation(key, f.name, f.file, mine[0]['line'], mine[0]['reason'], mine[0]['path'])
             else:
                 r.ok(key, {'site': '%s:%d' % (f.file, c['line'])})
-    if n < 3:
+    if n < 2:
         raise AnalysisBroken('only %d mechanism-restriction call sites found' % n)
 
 
